@@ -166,11 +166,18 @@ def run_batch(mod, tier, master, nruns, workers, chunk, wall_budget, hang_s=300)
     idxs = list(range(nruns))
     chunks = [idxs[j:j + chunk] for j in range(0, nruns, chunk)]
     results = {}
+    # VERIF_STOP_AT_FIRST=1 (the sensitivity self-test): runs are gathered in index
+    # order, so stopping after the first chunk that holds a violation reports the
+    # same first violation as the whole batch would, only sooner
+    stop_first = os.environ.get("VERIF_STOP_AT_FIRST") == "1"
+    abort = False
     if workers <= 1:
         for c in chunks:
             for r in _worker_chunk((mod.__name__, master, tier, c, hang_s)):
                 results[r["i"]] = r
             if time.time() - t0 > wall_budget:
+                break
+            if stop_first and any(results[i].get("violations") for i in c if i in results):
                 break
     else:
         ctx = multiprocessing.get_context("fork")
@@ -180,8 +187,12 @@ def run_batch(mod, tier, master, nruns, workers, chunk, wall_budget, hang_s=300)
             for f in futs:
                 left = wall_budget - (time.time() - t0)
                 try:
-                    for r in f.result(timeout=max(1.0, left)):
+                    got = f.result(timeout=max(1.0, left))
+                    for r in got:
                         results[r["i"]] = r
+                    if stop_first and any(r.get("violations") for r in got):
+                        abort = True
+                        break
                 except cf.TimeoutError:
                     agg.harness_errors.append((None, f"wall budget of {wall_budget}s exhausted"))
                     break
@@ -190,12 +201,12 @@ def run_batch(mod, tier, master, nruns, workers, chunk, wall_budget, hang_s=300)
                     break
         finally:
             for p in list(getattr(ex, "_processes", {}).values()):
-                if agg.harness_errors:
+                if agg.harness_errors or abort:
                     try:
                         p.kill()
                     except Exception:  # noqa: BLE001
                         pass
-            ex.shutdown(wait=not agg.harness_errors, cancel_futures=True)
+            ex.shutdown(wait=not (agg.harness_errors or abort), cancel_futures=True)
     for i in sorted(results):
         r = results[i]
         digests[i] = r.get("digest")
